@@ -94,7 +94,13 @@ Proof. vm_compute. repeat split. Qed.
 Definition p_ok :=
   POr (PAnd (PCmp ["a"; "b"] CEq (KNum 8)) (PAnd (PCmp ["a"; "c"] CGe (KNum 16)) (PCmp ["a"; "b"] CEq (KNum 8))))
       (PAnd (POr (PCmp ["a"] CLt (KNum 4)) (PCmp ["a"] CGt (KNum 4))) (PNot (PAttr (AEqS "name" (Some "f4"))))).
-Example p_ok_safe : safe current p_ok = true /\ wf_pred p_ok = true.
+Example p_ok_safe : safe_with current true true true false p_ok = true /\ wf_pred p_ok = true.
+Proof. vm_compute. split; reflexivity. Qed.
+(* fully guarded variant: the negation is on a None test, which junctions leave alone *)
+Definition p_ok2 :=
+  POr (PAnd (PCmp ["a"; "b"] CEq (KNum 8)) (PCmp ["a"; "c"] CGe (KNum 16)))
+      (PAnd (POr (PCmp ["a"] CLt (KNum 4)) (PCmp ["a"] CGt (KNum 4))) (PNot (PCmp ["d"] CEq KNone))).
+Example p_ok2_safe : safe current p_ok2 = true /\ wf_pred p_ok2 = true.
 Proof. vm_compute. split; reflexivity. Qed.
 Example p_ok_selects :
   exists q, compile current p_ok = Ok q /\ map fid (select q db5) = ["f0"; "f2"; "f3"] /\
